@@ -45,3 +45,13 @@ def digest(x) -> str:
 def short(x, n: int = 160) -> str:
     s = dumps(x)
     return s if len(s) <= n else s[: n - 3] + "..."
+
+
+def excname(e) -> str:
+    """Name of the builtin exception class an error belongs to (a project-defined subclass of AssertionError is an
+    AssertionError for the purpose of classifying a violation: renaming or refining error classes is not a change of
+    behaviour)."""
+    for c in type(e).__mro__:
+        if c.__module__ == "builtins":
+            return c.__name__
+    return type(e).__name__
